@@ -58,6 +58,14 @@ def _series(data=None, index=None, **kw):
     return Ser(data, list(index) if index is not None else list(range(len(data))))
 
 
+EXTERNAL_CONSTANTS = {
+    "optlang.interface.OPTIMAL": "optimal",
+    "optlang.interface.INFEASIBLE": "infeasible",
+    "optlang.interface.UNBOUNDED": "unbounded",
+    "optlang.interface.FEASIBLE": "feasible",
+}
+
+
 class FuncRef:
     """A package function used as a value (e.g. handed to map)."""
 
@@ -143,6 +151,8 @@ class Interp:
         sym = self.prog.resolve(ev.fn.unit, e.id)
         if isinstance(sym, FuncInfo) and (sym.qualname in self.follow or sym.qualname in self.stubs):
             return FuncRef(sym)
+        if isinstance(sym, str) and sym in EXTERNAL_CONSTANTS:
+            return EXTERNAL_CONSTANTS[sym]
         return NotImplemented
 
     def call_value(self, target, args, kwargs, ev, node):
